@@ -30,7 +30,7 @@ COMPONENTS = {"real": "whole IPhreeqc library from /repo's working tree (ASan+UB
 ASSUMPTIONS = ["the ledger reads the engine's own RAW dump: a defect that corrupts a stored total and its dump consistently is invisible (C10 covers writer/reader asymmetry)",
                "formulas of the phases used are transcribed from phreeqc.dat by hand", "steps that end in an error are outside the statement and end the history (counted)"]
 REACH_PROBES = ["steps_checked", "elements_checked", "charge_checked", "retry_ladder_entered", "buggify_fired", "steps_with_change", "kinds:exchange", "kinds:surface", "kinds:gas_phase", "kinds:solid_solutions", "kinds:kinetics", "mix_steps", "run_cells_steps"]
-tiers = {"quick": dict(runs=600, budget_s=150, workers=16), "thorough": dict(runs=30000, budget_s=1700, workers=16)}
+tiers = {"quick": dict(runs=2400, budget_s=240, workers=16), "thorough": dict(runs=30000, budget_s=1700, workers=16)}
 
 FORMULA = {"Calcite": "CaCO3", "Gypsum": "CaSO4:2H2O", "Dolomite": "CaMg(CO3)2", "Halite": "NaCl", "CO2(g)": "CO2", "N2(g)": "N2", "O2(g)": "O2", "Strontianite": "SrCO3", "Aragonite": "CaCO3",
            "Anhydrite": "CaSO4", "Sylvite": "KCl", "Fix_H+": "H", "H2O(g)": "H2O", "CH4(g)": "CH4", "Witherite": "BaCO3", "Barite": "BaSO4", "Celestite": "SrSO4"}
@@ -244,6 +244,11 @@ def generate(rng, tier, index):
         fault = {"kind": "buggify", "fail_first": rng.range(1, 6), "every": rng.choice([1, 1, 2, 3]), "phase": rng.below(3), "mode": rng.choice([1, 1, 2])}
     elif index % 4 == 2:
         fault = {"kind": "itmax", "iterations": rng.choice([8, 10, 12, 15, 20])}
+    elif index % 4 == 0:
+        # legal tuning knobs drawn per run: the rungs of the retry ladder are exactly such settings, so every one of them must conserve mass
+        fault = {"kind": "knobs", "iterations": rng.choice([100, 150, 200, 400, 800]), "step_size": rng.choice([100, 100, 10, 5, 2, 1000]), "pe_step_size": rng.choice([10, 10, 5, 2, 1.5]),
+                 "diagonal_scale": rng.chance(30), "tolerance": rng.choice([1e-15, 1e-15, 1e-14, 1e-16]), "convergence_tolerance": rng.choice([1e-8, 1e-8, 1e-10, 1e-12]),
+                 "delay_mass_water": rng.chance(20), "numerical_derivatives": rng.chance(15)}
     return {"prop": PROP, "cells": cells, "steps": steps, "fault": fault}
 
 
@@ -300,6 +305,10 @@ def check_plan(ctx, plan):
     head = [["create", "1", "sim"], call("cpp", "s1", "SetDumpStringOn", 1), call("cpp", "s1", "LoadDatabase", PHREEQC_DAT), call("cpp", "s1", "RunString", RATES)]
     if f and f["kind"] == "itmax":
         head.append(call("cpp", "s1", "RunString", "KNOBS\n -iterations %d\nEND\n" % f["iterations"]))
+    if f and f["kind"] == "knobs":
+        tf = lambda b: "true" if b else "false"
+        head.append(call("cpp", "s1", "RunString", "KNOBS\n -iterations %d\n -step_size %s\n -pe_step_size %s\n -diagonal_scale %s\n -tolerance %s\n -convergence_tolerance %s\n -delay_mass_water %s\n -numerical_derivatives %s\nEND\n"
+                         % (f["iterations"], f["step_size"], f["pe_step_size"], tf(f["diagonal_scale"]), f["tolerance"], f["convergence_tolerance"], tf(f["delay_mass_water"]), tf(f["numerical_derivatives"]))))
     for c in plan["cells"]:
         head.append(call("cpp", "s1", "RunString", cell_text(c)))
     # the set of existing keys is needed to write the steps: it is tracked from the plan (definitions + saves), and verified against the dump
@@ -358,6 +367,8 @@ def check_plan(ctx, plan):
             off = 4
         after = R[idx + off + 1].f[0]
         what = "step %d (%s)%s" % (si, describe(st), (" under %s" % json.dumps(f)) if f else "")
+        if f and f["kind"] == "knobs":
+            rep.count("steps_under_random_knobs")
         if fired:
             rep.count("buggify_fired", fired)
             rep.count("retry_ladder_entered")
